@@ -200,7 +200,8 @@ def size(c):
 def rand_string(rng, hostile):
     if hostile:
         n = rng.randint(0, 6)
-        pool = DELIMS + 'aZ 09=+-*/<>&^.'
+        pool = list(DELIMS + 'aZ 09=+-*/<>&^.') + ['\r\n', '\r', '\n',
+                                                   '\t', '\r\n', '\n\r']
         return ''.join(rng.choice(pool) for _ in range(n))
     n = rng.randint(0, 10)
     return ''.join(rng.choice(ALPHABET) for _ in range(n))
@@ -678,6 +679,10 @@ def run(ctx):
         {}, {'ws': True}, {'eq': False}, {'at': True},
         {'ws': True, 'lead': ' '}, {'trail': ' '}, {'trail': '\n'},
         {'lead': '\n ', 'ws': True, 'trail': '  '}, {'after_eq': ' '},
+        # blanks / line breaks before the "=" AND directly after it
+        {'lead': ' ', 'after_eq': ' '}, {'lead': '\n', 'after_eq': '\n'},
+        {'lead': '  ', 'after_eq': '  ', 'ws': True},
+        {'lead': ' ', 'after_eq': ' ', 'trail': ' '},
     ]
     for i in range(count):
         hostile = rng.random() < 0.5
